@@ -137,4 +137,62 @@ theorem disallowedAtW_congr (s : Bytes) (h : (0x0C : UInt8) ∉ s) : disallowedA
       rw [tagDelimW_congr _ (not_mem_drop _ _ _ (stripSlash_sub r _ hr))]
     · rfl
 
+/-! ### Locality: a `<` later in the literal never changes the decision for an earlier one -/
+
+theorem isPrefixCI_append_lt (name u t : Bytes) (hn : ∀ c ∈ name, c ≠ 0x3C) :
+    isPrefixCI name (u ++ 0x3C :: t) = isPrefixCI name u := by
+  induction name generalizing u with
+  | nil => simp [isPrefixCI]
+  | cons a p ih =>
+    have ha : a ≠ 0x3C := hn a (by simp)
+    have hp : ∀ c ∈ p, c ≠ 0x3C := fun c hc => hn c (by simp [hc])
+    cases u with
+    | nil =>
+      have : toLowerAscii 0x3C = 0x3C := by decide
+      simp [isPrefixCI, this, ha]
+    | cons b s => simp [isPrefixCI, ih s hp]
+
+theorem tagDelimW_append_lt (sp : UInt8 → Bool) (hsp : sp 0x3C = false) (d t : Bytes) :
+    tagDelimW sp (d ++ 0x3C :: t) = tagDelimW sp d := by
+  match d with
+  | [] => simp [tagDelimW, hsp]
+  | [c] => simp [tagDelimW]
+  | c :: e :: r => simp [tagDelimW]
+
+theorem stripSlash_append_lt (r t : Bytes) : stripSlash (r ++ 0x3C :: t) = stripSlash r ++ 0x3C :: t := by
+  cases r with
+  | nil => simp [stripSlash]
+  | cons c r' => by_cases h : c = 0x2F <;> simp [stripSlash, h]
+
+theorem any_congr_mem {α} (l : List α) (f g : α → Bool) (h : ∀ x ∈ l, f x = g x) : l.any f = l.any g := by
+  induction l with
+  | nil => rfl
+  | cons a r ih =>
+    simp only [List.any_cons, h a (by simp), ih (fun x hx => h x (by simp [hx]))]
+
+theorem blacklist_no_lt : ∀ name ∈ tagBlacklist, ∀ c ∈ name, c ≠ (0x3C : UInt8) := by decide
+
+theorem disallowedAtW_append_lt (sp : UInt8 → Bool) (hsp : sp 0x3C = false) (c : UInt8) (r t : Bytes) :
+    disallowedAtW sp (c :: r ++ 0x3C :: t) = disallowedAtW sp (c :: r) := by
+  simp only [disallowedAtW, List.cons_append]
+  split
+  · rw [stripSlash_append_lt]
+    apply any_congr_mem
+    intro name hname
+    rw [isPrefixCI_append_lt _ _ _ (blacklist_no_lt name hname)]
+    by_cases hp : isPrefixCI name (stripSlash r) = true
+    · have hl := isPrefixCI_length _ _ hp
+      rw [List.drop_append_of_le_length hl, tagDelimW_append_lt sp hsp]
+    · simp [hp]
+  · rfl
+
+theorem rewriteSpecW_append_lt (sp : UInt8 → Bool) (hsp : sp 0x3C = false) (p t : Bytes) :
+    rewriteSpecW sp (p ++ 0x3C :: t) = rewriteSpecW sp p ++ rewriteSpecW sp (0x3C :: t) := by
+  induction p with
+  | nil => simp [rewriteSpecW]
+  | cons b r ih =>
+    have := disallowedAtW_append_lt sp hsp b r t
+    simp only [List.cons_append] at this
+    simp only [List.cons_append, rewriteSpecW, this, ih, List.append_assoc]
+
 end Comrak
